@@ -38,6 +38,7 @@ def snapshot(t):
 
 def restore(snap, logdict=True):
     root, db = snap
+    root = bytes(bytearray(root))  # an equal, never identical root object
     return BinaryTrie(LogDict(db) if logdict else dict(db), root)
 
 
